@@ -274,9 +274,7 @@ func ruleP07SliceGuard(p *Prog, r *Report) {
 		return
 	}
 	var work *ssa.Function
-	for _, c := range callsTo(parse, async) {
-		work = funcLiteral(c.Common().Args[len(c.Common().Args)-1])
-	}
+	work = p.workerLiteral(parse, async)
 	if work == nil {
 		return
 	}
